@@ -362,7 +362,7 @@ def alias_checks(ctx, S):
     rng = ctx.rng()
     for name in ("ExtendedCopy4", "ExtendedCopy5", "PersistentReserveOut", "ModeSelect6", "ModeSelect10"):
         c = S.COMMANDS[name]
-        for i in range(150):
+        for i in range(400 if name.startswith("Extended") else 150):
             a, _ = DO.GEN[c.custom](rng)
             if i % 2:
                 a = to_bytearrays(a)  # callers (and the library's own tests) pass mutable bytearrays
@@ -383,10 +383,7 @@ def alias_checks(ctx, S):
                 ctx.fail("C09:reuse.second_command_differs", "%s: second command from the same arguments differs from one built from a fresh copy" % name, {"cmd": name, "args": pristine})
             # the caller changes values *inside* its long-lived descriptors and sends the next command
             try:
-                donor, _ = DO.GEN[c.custom](rng)
-                if i % 2:
-                    donor = to_bytearrays(donor)
-                changed = graft(a, donor, 0)
+                changed = perturb(a, 0, rng.choice([2, 4, 4, 5]), rng)  # sometimes only deep inside the descriptors
                 if changed:
                     ctx.count("reuse_after_nested_change")
                     want = harness.construct(c, c.sets[0], copy.deepcopy(a))
@@ -441,27 +438,26 @@ def alias_checks(ctx, S):
 STRUCTURAL = ("type", "code", "length", "format", "association", "protocol", "naa", "piv", "spf", "page", "lu_id", "nul", "pad", "cat")
 
 
-def graft(dst, src, depth):
-    """copy leaf values of src into the *same container objects* of dst where both trees have the same shape; only below the top
-    level, never values that select a structure.  Returns the number of leaves changed."""
+def perturb(x, depth, min_depth, rng):
+    """change leaf values in place (container objects stay the caller's): the low bit of integers that do not select a structure, the
+    last byte of mutable byte strings; only at nesting depth >= min_depth.  Returns the number of leaves changed."""
     n = 0
-    if isinstance(dst, dict) and isinstance(src, dict):
-        for k in list(dst):
-            if k not in src:
-                continue
-            x, y = dst[k], src[k]
-            if isinstance(x, (dict, list)) and type(x) is type(y):
-                n += graft(x, y, depth + 1)
-            elif depth >= 2 and isinstance(x, int) and not isinstance(x, bool) and isinstance(y, int) and x != y and not any(t in k for t in STRUCTURAL):
-                dst[k] = y
-                n += 1
-            elif depth >= 2 and isinstance(x, bytearray) and isinstance(y, (bytes, bytearray)) and len(x) == len(y) and x != y:
-                x[:] = y  # the bytes of the caller's own buffer
-                n += 1
-    elif isinstance(dst, list) and isinstance(src, list):
-        for x, y in zip(dst, src):
-            if isinstance(x, dict) and isinstance(y, dict) and set(x) == set(y) and all(x.get(k) == y.get(k) for k in x if any(t in k for t in STRUCTURAL) and not isinstance(x.get(k), (dict, list))):
-                n += graft(x, y, depth + 1)
+    if isinstance(x, dict):
+        for k in list(x):
+            y = x[k]
+            if isinstance(y, (dict, list)):
+                n += perturb(y, depth + 1, min_depth, rng)
+            elif depth >= min_depth and not any(t in k for t in STRUCTURAL) and rng.random() < 0.6:
+                if isinstance(y, int) and not isinstance(y, bool):
+                    x[k] = y ^ 1
+                    n += 1
+                elif isinstance(y, bytearray) and len(y) > 1:
+                    y[-1] ^= 0x01
+                    n += 1
+    elif isinstance(x, list):
+        for y in x:
+            if isinstance(y, (dict, list)):
+                n += perturb(y, depth + 1, min_depth, rng)
     return n
 
 
